@@ -63,7 +63,8 @@ def gen_nest(rng, N, mode):
     form = counter_forms(rng)
     if mode == "path":
         form = rng.choice(["var", "var+filter", "two-vars"])
-    shape = rng.choice(["self", "self", "parent", "grandparent", "sibling", "nested-sibling", "mutual-via-parent"])
+    shape = rng.choice(["self", "self", "parent", "grandparent", "sibling", "nested-sibling", "mutual-via-parent",
+                        "parent+selfrec", "grandparent+selfrec"])
     feats = {"form": form, "shape": shape, "mode": mode}
     # counter handling: a list of (parameter, argument of the recursive call, argument of the initial call)
     if form in ("dot", "dot+filter"):
@@ -105,6 +106,13 @@ def gen_nest(rng, N, mode):
     elif shape == "grandparent":
         pos, body_call = tail_wrap(rng, step + callto("f", args_next), mode)
         prog = "def %s: def g2: def g3: if %s then %s else %s end; g3; g2;; %s|||%s" % (sig("f"), cond, body_call, done, init_input, callto("f", args_init))
+    elif shape == "parent+selfrec":
+        # the local definition is itself (syntactically) tail-recursive *and* calls back into its parent
+        pos, body_call = tail_wrap(rng, step + callto("f", args_next), mode)
+        prog = "def %s: def g2: if . == \"never\" then g2 elif %s then %s else %s end; g2;; %s|||%s" % (sig("f"), cond, body_call, done, init_input, callto("f", args_init))
+    elif shape == "grandparent+selfrec":
+        pos, body_call = tail_wrap(rng, step + callto("f", args_next), mode)
+        prog = "def %s: def g2: def g3: if . == \"never\" then (. | g3) elif %s then %s else %s end; g3; g2;; %s|||%s" % (sig("f"), cond, body_call, done, init_input, callto("f", args_init))
     elif shape == "sibling":
         # b is defined after a and tail-calls the earlier sibling a, which loops by itself
         pos, body_call = tail_wrap(rng, step + callto("a", args_next), mode)
